@@ -1229,7 +1229,11 @@ impl<'a, S: Storage> BTree<'a, S> {
             let page_data = self.storage.page(page_no)?;
             let leaf = LeafNode::from_page(page_data)?;
 
-            if (leaf.free_space() as usize) >= size_increase {
+            // delete_cell only gives the 8-byte slot back (dead cell bytes are not reused
+            // before the next split), so the re-insert needs room for the whole new cell;
+            // without it report "not updated in place" and let the caller delete + insert
+            let new_cell_size = key.len() + value_len_size + new_value.len();
+            if (leaf.free_space() as usize) >= new_cell_size.max(size_increase) {
                 let page_data = self.storage.page_mut(page_no)?;
                 let mut leaf = LeafNodeMut::from_page(page_data)?;
                 leaf.delete_cell(cell_index)?;
